@@ -212,6 +212,7 @@ func RunVM(req *sb.Request, mods map[string]ast.AnalyzedProgram) (res sb.RunResu
 	pctx.OnCancel = func() {
 		rec.mu.Lock()
 		rec.writesAtCancel = len(rec.Writes)
+		rec.cancelTime = time.Now()
 		rec.mu.Unlock()
 	}
 	var ctx context.Context = pctx
@@ -263,6 +264,11 @@ func RunVM(req *sb.Request, mods map[string]ast.AnalyzedProgram) (res sb.RunResu
 	if !req.SkipMain {
 		core := vm.SpawnAsync(hsruntime.MainFn(), nil, nil, nil)
 		_, i := vm.Wait()
+		rec.mu.Lock()
+		if !rec.cancelTime.IsZero() {
+			res.MsAfterCancel = time.Since(rec.cancelTime).Milliseconds()
+		}
+		rec.mu.Unlock()
 		res.Outcome = vmOutcome(i)
 		if i != nil {
 			// other cores (possibly including main) may still be inside their last quantum: their
@@ -447,6 +453,7 @@ func RunTree(req *sb.Request, mods map[string]ast.AnalyzedProgram) (res sb.RunRe
 	pctx.OnCancel = func() {
 		rec.mu.Lock()
 		rec.writesAtCancel = len(rec.Writes)
+		rec.cancelTime = time.Now()
 		rec.mu.Unlock()
 	}
 	var ctx context.Context = pctx
@@ -457,6 +464,11 @@ func RunTree(req *sb.Request, mods map[string]ast.AnalyzedProgram) (res sb.RunRe
 	res.GoroutinesBefore = runtime.NumGoroutine()
 	i := homescript.Run(req.Limits.TreeCall, mods, req.Entry, TreeExec{H: host}, homescript.TestingInterpreterScopeAdditions(), &ctx)
 	res.Outcome = treeOutcome(i)
+	rec.mu.Lock()
+	if !rec.cancelTime.IsZero() {
+		res.MsAfterCancel = time.Since(rec.cancelTime).Milliseconds()
+	}
+	rec.mu.Unlock()
 	res.GoroutinesAfter = waitGoroutines(res.GoroutinesBefore)
 	res.Writes = append([]string{}, rec.Writes...)
 	res.Singletons = rec.Singletons
